@@ -232,6 +232,7 @@ class Contract:
     abstract_calls: dict = field(default_factory=dict)    # simple callee name -> abstract handler (assumed contract)
     asserts: dict = field(default_factory=dict)           # statement fingerprint -> clauses checked before it runs
     taint: dict = field(default_factory=dict)             # local name -> tag put on opaque values assigned to it
+    merge_threshold: int = 0                              # frame mode: join states only above this many (0 = default)
     pop_guard: bool = False
     ctx_facts: list = field(default_factory=list)
 
@@ -970,7 +971,7 @@ class X:
         """frame mode: sound over-approximating join of states whose tracked
         (ghost) state, ghost log and handler stack agree: differing locals are
         havoc'ed, the path condition is cut to the common prefix."""
-        if self.mode != "frame" or len(states) <= self.MERGE_THRESHOLD:
+        if self.mode != "frame" or len(states) <= (self.c.merge_threshold or self.MERGE_THRESHOLD):
             return states
         groups: dict = {}
         for s in states:
@@ -1686,7 +1687,15 @@ class X:
                 if not z3.is_true(t):
                     exit_states.append(s2.fork(z3.Not(t)))
         for bs in body_starts:
+            # values of the loop-assigned locals at the start of this iteration: `<name>_at_head` in iteration_post
+            head_vals = {}
+            for nm in self.assigned_names(s_.body):
+                hv = self.lookup(nm, bs, chain)
+                if hv is not None:
+                    head_vals[nm + "_at_head"] = hv
+            self._head_vals = head_vals
             for s2, oc in self.block(s_.body, bs, chain):
+                self._head_vals = head_vals
                 if oc[0] in ("fall", "continue"):
                     if foreach and cur_title is not None:
                         s2.ghost = dict(s2.ghost)
@@ -1755,8 +1764,9 @@ class X:
                     head.pc.append(self.truth_st(v, s2))
 
     def _check_loop_invariant(self, s_, st: St, chain, spec, fp, kind):
+        extra = dict(getattr(self, "_head_vals", {}) or {}) if kind == "iter-post" else None
         for cl in spec.get("invariant", []):
-            for s2, v in self.eval_clause(cl, st, chain):
+            for s2, v in self.eval_clause(cl, st, chain, extra):
                 if v.k == "raise":
                     self.oblige(kind, f"{fp[:60]} :: {cl}", s2, z3.BoolVal(False), detail="clause raised")
                 else:
